@@ -328,7 +328,7 @@ Lemma match_ref_inr ref samp m : match_ref ref samp = inr m ->
 Proof.
   unfold match_ref. destruct (has_dup (map skey samp)) eqn:D1; [discriminate|].
   destruct (has_dup (map rkey3 ref)) eqn:D2; [discriminate|].
-  destruct (all_some (map (fun s => lookup ref (skey s)) samp)) as [l|] eqn:A; [|discriminate].
+  destruct (Prelude.all_some (map (fun s => lookup ref (skey s)) samp)) as [l|] eqn:A; [|discriminate].
   intros E; injection E as <-.
   apply all_some_Some in A.
   assert (L : length samp = length l).
